@@ -93,6 +93,9 @@ theorem C05_history_isolated_tree_wf :
     | register rt =>
       simp only [C05.runSteps, C05.step, C05.expected]
       exact ih _ hok
+    | borrow id prog =>
+      simp only [C05.runSteps, C05.step, C05.expected]
+      exact ih _ hok
     | request r =>
       obtain ⟨hwf, hok'⟩ := hok
       simp only [C05.runSteps, C05.step, C05.expected]
@@ -129,6 +132,7 @@ def regsOf : List C05.Step → List Route
   | [] => []
   | .register rt :: ss => rt :: regsOf ss
   | .request _ :: ss => regsOf ss
+  | .borrow _ _ :: ss => regsOf ss
 
 theorem tablesOk_of_final : ∀ (steps : List C05.Step) (routes : List Route),
     wfTable (routes ++ regsOf steps) = true → TablesOk (fun rs => wfTable rs = true) routes steps := by
@@ -142,6 +146,10 @@ theorem tablesOk_of_final : ∀ (steps : List C05.Step) (routes : List Route),
       simp only [TablesOk]
       apply ih
       simpa [regsOf, List.append_assoc] using h
+    | borrow id prog =>
+      simp only [TablesOk]
+      simp only [regsOf] at h
+      exact ih routes h
     | request r =>
       simp only [TablesOk]
       simp only [regsOf] at h
